@@ -14,7 +14,7 @@ use oracle::{gf, segment};
 use serde_json::json;
 
 pub const ID: &str = "C02";
-pub const FAMS: [&str; 3] = ["cell-full", "cell-short", "cell-random"];
+pub const FAMS: [&str; 4] = ["cell-full", "cell-short", "cell-random", "crafted-blocks"];
 
 pub fn jobs(ctx: &Ctx) -> Vec<Job> {
     let caps = &ctx.caps;
@@ -24,7 +24,14 @@ pub fn jobs(ctx: &Ctx) -> Vec<Job> {
     let mut rng = Rng::new(ctx.seed ^ 0xc02);
     for v in 1..=40usize {
         for level in 0..4usize {
-            for (fi, fam) in FAMS.iter().enumerate() {
+            // data codewords with prescribed per-block shapes: every block the padding pattern, the padding
+            // pattern except one byte, zero blocks after the first, one zero block in the middle, identical
+            // blocks, short block == head of long block, leading zeros in every block
+            for sh in 0..crate::craft::CW_SHAPE_COUNT {
+                k += 1;
+                jobs.push(Job::crafted(FAMS[3], crate::job::CRAFT_SHAPE, sh, v, level, rotate_mask(k + v), mix(ctx.seed, k as u64)));
+            }
+            for (fi, fam) in FAMS.iter().take(3).enumerate() {
                 let reps = if fi == 2 { per_cell } else { 1 };
                 for _ in 0..reps {
                     k += 1;
@@ -43,7 +50,9 @@ pub fn jobs(ctx: &Ctx) -> Vec<Job> {
                         version: Some(v),
                         mask: rotate_mask(k + v),
                         len,
-                        gen: if k % 2 == 0 { GEN_RANDOM } else { GEN_RAMP },
+                        // block permutations must stay visible in the full/short families (non-periodic content);
+                        // the random family also takes constant, zero-run, periodic and token payloads
+                        gen: if fi == 2 && k % 3 == 0 { k % crate::job::GEN_COUNT } else if k % 2 == 0 { GEN_RANDOM } else { GEN_RAMP },
                         seed: mix(ctx.seed, k as u64),
                         ..Default::default()
                     });
